@@ -339,6 +339,12 @@ struct FaultCase {
     /// rejected by rejection-sampling loops, which makes the operation draw again)
     #[serde(default)]
     first_draw_fill: Option<u8>,
+    /// the error the source reports (rng::error_of_kind: internal, custom, EIO, EAGAIN, unsupported)
+    #[serde(default)]
+    error_kind: u8,
+    /// the source stays broken: every later draw of the operation fails as well
+    #[serde(default)]
+    persistent: bool,
 }
 
 fn fault_one<B: Backend>(acc: &mut Acc, fx: &Fixture<B>, c: &FaultCase) -> R {
@@ -347,7 +353,7 @@ fn fault_one<B: Backend>(acc: &mut Acc, fx: &Fixture<B>, c: &FaultCase) -> R {
     if let Some(b) = c.first_draw_fill {
         rng::script_first_any_len(b);
     }
-    rng::fail_at(c.draw_index, c.fill);
+    rng::fail_at_with(c.draw_index, c.fill, c.error_kind, c.persistent);
     let r = catch(|| run_op::<B>(fx, c.op));
     let log = rng::end_op();
     let injected = log.iter().any(|d| d.failed);
@@ -358,13 +364,13 @@ fn fault_one<B: Backend>(acc: &mut Acc, fx: &Fixture<B>, c: &FaultCase) -> R {
         Err(loc) => {
             return Err(Fail::new(
                 format!("C16/{name}/{:?}/rng-failure/panicked/{}", c.op, panic_site(&loc)),
-                format!("RNG failure at draw {} (fill {}) made the operation panic at {loc}", c.draw_index, c.fill),
+                format!("RNG failure at draw {} (fill {}, error kind {}, persistent {}) made the operation panic at {loc}", c.draw_index, c.fill, c.error_kind, c.persistent),
             ));
         }
         Ok(Ok(out)) => {
             return Err(Fail::new(
                 format!("C16/{name}/{:?}/rng-failure/produced-output", c.op),
-                format!("RNG failure at draw {} (buffer filled {}/2) still produced {}", c.draw_index, c.fill, out.text.chars().take(60).collect::<String>()),
+                format!("RNG failure at draw {} (buffer filled {}/2; error {}; {}) still produced {}", c.draw_index, c.fill, rng::error_of_kind(c.error_kind), if c.persistent { "and at every later draw" } else { "at this draw only" }, out.text.chars().take(60).collect::<String>()),
             ));
         }
         Ok(Err(_)) => {}
@@ -428,9 +434,13 @@ fn faults<B: Backend>(acc: &mut Acc) {
             };
             for k in indices {
                 for fill in 0..(if v1_keygen { 1u8 } else { 3u8 }) {
-                    let c = FaultCase { op, draw_index: k, fill, first_draw_fill: None };
-                    total += 1;
-                    acc.check(&c, |acc| fault_one::<B>(acc, &fx, &c));
+                    // every error a source can report, failing once or from this draw on
+                    let kinds: Vec<(u8, bool)> = if v1_keygen { vec![((k % rng::ERROR_KINDS as usize) as u8, k % 2 == 1)] } else { (0..rng::ERROR_KINDS).flat_map(|e| [(e, false), (e, true)]).collect() };
+                    for (error_kind, persistent) in kinds {
+                        let c = FaultCase { op, draw_index: k, fill, first_draw_fill: None, error_kind, persistent };
+                        total += 1;
+                        acc.check(&c, |acc| fault_one::<B>(acc, &fx, &c));
+                    }
                 }
             }
             // retry paths: a first candidate of all-ones / all-zero bytes is rejected by rejection
@@ -446,15 +456,17 @@ fn faults<B: Backend>(acc: &mut Acc) {
                 acc.class("fault:retry-path-reached");
                 for k in log.len()..log2.len() {
                     for fill in 0..3u8 {
-                        let c = FaultCase { op, draw_index: k, fill, first_draw_fill: Some(pattern) };
-                        total += 1;
-                        acc.check(&c, |acc| fault_one::<B>(acc, &fx, &c));
+                        for (error_kind, persistent) in [(0u8, false), (2, true), (1, true)] {
+                            let c = FaultCase { op, draw_index: k, fill, first_draw_fill: Some(pattern), error_kind, persistent };
+                            total += 1;
+                            acc.check(&c, |acc| fault_one::<B>(acc, &fx, &c));
+                        }
                     }
                 }
             }
         }
     }
-    acc.exhaustive.push(format!("{name}: every (operation kind x draw index x fill in {{0, 1/2, full}}) x {reps} key sets = {total} injected failures"));
+    acc.exhaustive.push(format!("{name}: every (operation kind x draw index x fill in {{0, 1/2, full}} x error in {{internal, custom, EIO, EAGAIN, unsupported}} x {{this draw only, every draw from here on}}) x {reps} key sets = {total} injected failures"));
     acc.sample(|| json!({"backend": name, "injected_failures": total, "example": {"op": "Pbkw", "draw_index": 1, "fill": "half the buffer"}}));
 }
 
